@@ -164,6 +164,31 @@ def idx {β : Type} (l : List β) (i : Nat) : Except Fault β :=
   | some x => .ok x
   | none => .error .index
 
+/-- `for cond { body }` over the captured variables `σ`, as the extractor (harness/cmd/c04 extract) renders a
+Go loop.  Go has no fuel: `fuel` is a bound computed from the receiver (`loopFuel2/3`) under which the loop
+terminates or faults; the tie lemmas (Ties/Points*.lean) equate the rendered closures with the fuel-free
+structural functions below, so `Fault.fuel` never occurs. -/
+def whileFuel {σ : Type} : Nat → (σ → Except Fault Bool) → (σ → Except Fault σ) → σ → Except Fault σ
+  | 0, _, _, _ => .error .fuel
+  | n+1, c, b, s =>
+    match c s with
+    | .error e => .error e
+    | .ok false => .ok s
+    | .ok true =>
+      match b s with
+      | .error e => .error e
+      | .ok s' => whileFuel n c b s'
+
+/-- number of members + 1: bound for a loop that moves to the next member in every iteration -/
+def loopFuel2 {β : Type} (p : List (List β)) : Nat := p.length + 1
+
+/-- rings and polygons still ahead, counting one extra step per polygon -/
+def slots {β : Type} : List (List (List β)) → Nat
+  | [] => 0
+  | p :: rest => p.length + 1 + slots rest
+
+def loopFuel3 {β : Type} (mp : List (List (List β))) : Nat := slots mp + 1
+
 /-- `for i == len(p[j]) { j++; i = 0 }`, run on the members `p[j:]` -/
 def skip2 {β : Type} (i j : Nat) : List (List β) → Except Fault (Nat × Nat)
   | [] => .error .index
@@ -274,6 +299,17 @@ def drain (g : Geom α) : Nat → ItSt → Except Fault (List (Pt α))
     let (v, s') ← next g s
     let vs ← drain g n s'
     pure (v :: vs)
+
+/-- call a rendered closure `step` (state `σ` = its captured variables) `n` times -/
+def drainStep {σ : Type} (step : σ → Except Fault (Pt α × σ)) : Nat → σ → Except Fault (List (Pt α))
+  | 0, _ => .ok []
+  | n+1, s =>
+    match step s with
+    | .error e => .error e
+    | .ok (v, s') =>
+      match drainStep step n s' with
+      | .error e => .error e
+      | .ok vs => .ok (v :: vs)
 
 /-- `n := g.Len(); it := g.Points(); n times it()` -/
 def pointsOf (g : Geom α) : Except Fault (List (Pt α)) := do
